@@ -235,3 +235,49 @@ func (x *Exec) noteMatched(cl *Clause) {
 	}
 	x.csMatched[cl] = true
 }
+
+// bindAliases: "alias NAME = pointee($PARAM of CALLEE)" clauses of the function under verification take effect at its
+// first call of CALLEE: NAME then denotes the variable whose address is passed as PARAM (directly, or boxed in an
+// interface as decoders' "into" arguments are).
+func (x *Exec) bindAliases(fr *Frame, ct *FnContract, key string, callee *ssa.Function, cc *ssa.CallCommon) {
+	for _, al := range ct.Aliases {
+		if _, done := x.aliases[al.Name]; done {
+			continue
+		}
+		if !(al.Callee == key || strings.HasSuffix(key, al.Callee) && (strings.HasPrefix(al.Callee, ".") || strings.HasPrefix(al.Callee, ")"))) {
+			continue
+		}
+		idx := -1
+		sig := cc.Signature()
+		off := 0
+		if sig.Recv() != nil && !cc.IsInvoke() {
+			off = 1
+		}
+		for i := 0; i < sig.Params().Len(); i++ {
+			if sig.Params().At(i).Name() == al.Param {
+				idx = i + off
+			}
+		}
+		if callee != nil {
+			for i, p := range callee.Params {
+				if p.Name() == al.Param {
+					idx = i
+				}
+			}
+		}
+		if idx < 0 || idx >= len(cc.Args) {
+			continue
+		}
+		var ptr ssa.Value = cc.Args[idx]
+		if mi, ok := ptr.(*ssa.MakeInterface); ok {
+			ptr = mi.X
+		}
+		if _, ok := ptr.Type().Underlying().(*types.Pointer); !ok {
+			continue
+		}
+		if x.aliases == nil {
+			x.aliases = map[string]Val{}
+		}
+		x.aliases[al.Name] = Val{T: fr.val(ptr), Ty: ptr.Type(), ptrToVar: true}
+	}
+}
